@@ -797,9 +797,15 @@ def _process_match(
 
         for literal, group in tracked:
             if literal is None:
+                if m.start(group) >= 0:
+                    # matched text between the previous segment and the
+                    # group is dropped (or reused, for nested groups)
+                    delta += m.start(group) - start
+                    start = m.start(group)
                 literal = m.group(group) or ''
                 _copy_part(literal, shift + delta, parts, smap, emap)
                 mask.extend(prev_mask[(start+1):(start+len(literal)+1)])
+                start += len(literal)
                 # the start of the next group that participated in the match
                 end = next((m.start(g)
                             for g in range(group+1, (m.lastindex or 0)+1)
@@ -814,8 +820,7 @@ def _process_match(
                 _insert_part(literal, width, shift + delta, parts, smap, emap)
                 mask.extend([_MASK_O] * litlen)
                 delta += width - litlen
-
-            start = end
+                start = end
 
         if untracked:
             # block if untracked overlaps with mask, including backreferences
